@@ -157,6 +157,10 @@ def run_driver(driver, family, cases, nproc=None, env=None, per_case_timeout=120
         t.join()
     shutil.rmtree(scratch, ignore_errors=True)
     log("[driver] %s: %d cases on %d processes" % (family, len(cases), nproc))
+    slow = [cid for cid, r in results.items() if isinstance(r, dict) and r.get("crash") and r.get("timeout")]
+    if slow:
+        # a case killed by the per-case watchdog is slowness or a hang we cannot tell apart: never a verdict
+        raise Infra("%d %s case(s) exceeded the per-case timeout of %ds (first: %s)" % (len(slow), family, per_case_timeout, slow[0]))
     missing = [c["id"] for c in cases if c["id"] not in results]
     if missing:
         raise Infra("driver lost %d cases (first %s)" % (len(missing), missing[0]))
